@@ -90,6 +90,7 @@ func doReplay(prog *Program, spec *PropSpec, rf *replayFile, dir string, skipNat
 	for _, cv := range er.Violations {
 		if cv.Label == rf.Label {
 			found = true
+			rf.Trace = cv.Trace
 		}
 	}
 	if !found {
